@@ -1055,7 +1055,18 @@ class unyt_array(np.ndarray):
         else:
             to_units = self.units.get_base_equivalent(unit_system)
             conv, offset = self.units.get_conversion_factor(to_units, self.dtype)
-        ret = self.v * conv
+        dsize = max(2, self.dtype.itemsize)
+        if self.dtype.kind in ("u", "i"):
+            large = LARGE_INPUT.get(dsize, 0)
+            if large and np.any(np.abs(self.d) >= large):
+                warnings.warn(
+                    f"Overflow encountered while converting to units '{to_units}'",
+                    RuntimeWarning,
+                    stacklevel=2,
+                )
+        new_dtypekind = "c" if self.dtype.kind == "c" else "f"
+        new_dtype = np.dtype(new_dtypekind + str(dsize))
+        ret = np.asarray(self.v * conv, dtype=new_dtype)
         if offset:
             ret = ret - offset
         return type(self)(ret, to_units)
